@@ -925,11 +925,11 @@ package node
 //@ ghostheap mfin(m *meta) int
 //@ ghostheap mstarter(m *meta) int
 //@ spec func msInv(s int32, o int, f int, st int) bool = (s == 0 || s == 1 || s == 2 || s == 4) && (s == 2 ==> o != 0) && (s == 0 || s == 1 ==> o == 0) && (f != 0 <==> s == 4)
-//@ spec func msGuar(me int, s int32, o int, f int, st int, s2 int32, o2 int, f2 int, st2 int) bool = (s2 == s && o2 == o && f2 == f && st2 == st) || (s == 0 && st == me && s2 == 1 && o2 == 0 && f2 == f && st2 == st) || (s == 1 && s2 == 2 && o2 != 0 && f2 == f && st2 == st) || (o == me && s == 2 && s2 == 1 && o2 == 0 && f2 == f && st2 == st) || (s != 4 && (s != 0 || st == me) && s2 == 4 && f == 0 && f2 == me && o2 == o && st2 == st)
-//@ spec func msRely(me int, s int32, o int, f int, st int, s2 int32, o2 int, f2 int, st2 int) bool = (o == me ==> o2 == me && (s2 == s || s2 == 4)) && (o != me ==> o2 != me) && (f == me ==> f2 == me) && (f != me ==> f2 != me) && (f != 0 ==> f2 != 0) && (st == me ==> st2 == me) && (st == me && s == 0 ==> s2 == 0) && (s == 4 ==> s2 == 4)
+//@ spec func msGuar(me int, s int32, o int, f int, st int, s2 int32, o2 int, f2 int, st2 int) bool = (s2 == s && o2 == o && f2 == f && st2 == st) || (s == 0 && s2 == 0 && st == 0 && st2 != 0 && o2 == o && f2 == f) || (s == 0 && st == me && s2 == 1 && o2 == 0 && f2 == f && st2 == st) || (s == 1 && s2 == 2 && o2 != 0 && f2 == f && st2 == st) || (o == me && s == 2 && s2 == 1 && o2 == 0 && f2 == f && st2 == st) || (s != 4 && (s != 0 || st == me) && s2 == 4 && f == 0 && f2 == me && o2 == o && st2 == st)
+//@ spec func msRely(me int, s int32, o int, f int, st int, s2 int32, o2 int, f2 int, st2 int) bool = (o == me ==> o2 == me && (s2 == s || s2 == 4)) && (o != me ==> o2 != me) && (f == me ==> f2 == me) && (f != me ==> f2 != me) && (f != 0 ==> f2 != 0) && (st == me ==> st2 == me) && (st == me && s == 0 ==> s2 == 0) && (s == 0 && st == 0 ==> s2 == 0 && st2 == 0 && o2 == o && f2 == f) && (s == 4 ==> s2 == 4)
 //@ protocol metaState field meta.state ghosts mown mfin mstarter inv msInv rely msRely guar msGuar
 
-//@ lemma metaState_rely_covers_guarantee props C01 C05: forall me, t int, s, s2 int32, o, f, st, o2, f2, st2 int :: t != me && t != 0 && me != 0 && msInv(s, o, f, st) && msInv(s2, o2, f2, st2) && msGuar(t, s, o, f, st, s2, o2, f2, st2) && !(s == 1 && s2 == 2 && o2 == me) && (st == me ==> st != t) ==> msRely(me, s, o, f, st, s2, o2, f2, st2)
+//@ lemma metaState_rely_covers_guarantee props C01 C05: forall me, t int, s, s2 int32, o, f, st, o2, f2, st2 int :: t != me && t != 0 && me != 0 && msInv(s, o, f, st) && msInv(s2, o2, f2, st2) && msGuar(t, s, o, f, st, s2, o2, f2, st2) && !(s == 1 && s2 == 2 && o2 == me) && !(s == 0 && st == 0 && st2 != 0) && (st == me ==> st != t) ==> msRely(me, s, o, f, st, s2, o2, f2, st2)
 //@ lemma metaState_callbacks_exclusive props C01 C05: forall a, b int, s int32, o, f, st int :: msInv(s, o, f, st) && a != b && a != 0 && b != 0 ==> !(o == a && o == b) && !(f == a && f == b)
 
 //@ iface gen.MetaBehavior.HandleMessage
@@ -956,7 +956,8 @@ package node
 //@   props C01 C05
 //@   no_safety
 //@   protocol metaState at m
-//@   requires [fresh_and_mine] m != nil && m.state == 0 && mstarter(m) == me && mown(m) == 0 && mfin(m) == 0
+//@   requires [fresh_and_mine] m != nil && m.state == 0 && mstarter(m) == me
+//@   assume [ghosts_of_a_fresh_object] mown(m) == 0 && mfin(m) == 0
 //@   assume [tables] m.p != nil && m.p.node != nil && tablesWF(m.p.node)
 //@   at atomic 2 ghost mfin = (result != 4 && mfin(m) == 0 ? me : mfin(m))
 //@   at call Terminate assert [finaliser_only_after_the_last_handler_callback] mfin(m) == me && (mown(m) == 0 || mown(m) == me)
@@ -994,5 +995,26 @@ package node
 //@   props C01 C05
 //@   no_safety
 //@   no_frame
+//@   protocol metaState at m
 //@   requires p.node != nil && p.log != nil
 //@   at go ghost mstarter = child
+
+// the deferred panic handlers of the two goroutines
+//@ func (m *meta) handle$1$1
+//@   props C01 C05
+//@   no_safety
+//@   no_frame
+//@   protocol metaState at m
+//@   requires [holds_token] m != nil && mown(m) == me
+//@   assume [tables] m.p != nil && m.p.node != nil && tablesWF(m.p.node)
+//@   at atomic 1 ghost mfin = (result != 4 && mfin(m) == 0 ? me : mfin(m))
+//@   at call Terminate assert [finaliser_only_after_the_last_handler_callback] mfin(m) == me && (mown(m) == 0 || mown(m) == me)
+//@ func (m *meta) start$1
+//@   props C01 C05
+//@   no_safety
+//@   no_frame
+//@   protocol metaState at m
+//@   requires [is_the_starter] m != nil && mstarter(m) == me
+//@   assume [tables] m.p != nil && m.p.node != nil && tablesWF(m.p.node)
+//@   at atomic 1 ghost mfin = (result != 4 && mfin(m) == 0 ? me : mfin(m))
+//@   at call Terminate assert [finaliser_only_after_the_last_handler_callback] mfin(m) == me && (mown(m) == 0 || mown(m) == me)
